@@ -915,6 +915,15 @@ func (fx *fctx) intrinsic(st *State, name string, ce *ast.CallExpr) ([]*Value, b
 		el := s.T.Underlying().(*types.Slice).Elem()
 		h := e.heapGet(st, e.elemKey(el), ArrSort(SInt))
 		return []*Value{{T: t, Tm: e.psumTerm(h, s.Sl.Ptr, n)}}, true
+	case "ghostAssert":
+		// ghostAssert(b): proof obligation raised from ghost code
+		g := fx.evalBool(st, ce.Args[0])
+		saved := fx.spec
+		fx.spec = false
+		fx.assert(st, "ghost-assert", abbrev(e.exprStr(ce.Args[0])), g, ce, nil, "ghost assertion: "+e.exprStr(ce.Args[0]))
+		fx.spec = saved
+		st.assume(g)
+		return nil, true
 	case "rngSame":
 		if fx.oldState == nil {
 			e.unsup(ce, "rngSame outside two-state clause")
